@@ -166,6 +166,51 @@ Proof.
   split; [apply ambiguousb_sound; vm_compute; reflexivity|]. split; vm_compute; reflexivity.
 Qed.
 
+(** ** However the starting transaction was obtained.  The Go object holds an input's unlocking script behind a
+    pointer - nil after From / FromUTXOs / a struct literal, present with length 0 after NewTxFromBytes /
+    NewTxFromString / Clone / JSON decoding of an unsigned draft or after clearing a signature.  model/FundObtained.v
+    models estimatedFinalTx / estimateDeficit / FromUTXOs / Fund over inputs that carry this distinction, in the
+    shape of the Go code; every observable (verdict, the deficits handed to the supplier, number of calls, what the
+    transaction left behind says) is that of [fund] on what the transaction SAYS, so all theorems above hold for it. *)
+From GoBT Require model.FundObtained proofs.FundObtainedProofs.
+Import FundObtained.
+Theorem C12_fund_however_obtained : forall (t : gtx) q hist,
+  says_result (g_fund t q hist) = fund (says t) q hist.
+Proof. exact FundObtainedProofs.fund_says. Qed.
+Print Assumptions C12_fund_however_obtained.
+
+(** two transactions that say the same are funded alike; and every [tx] is said by a decoded and by a hand-built object *)
+Theorem C12_fund_obtained_irrelevant : forall (t1 t2 : gtx) q hist,
+  says t1 = says t2 -> says_result (g_fund t1 q hist) = says_result (g_fund t2 q hist).
+Proof. exact FundObtainedProofs.fund_obtained_irrelevant. Qed.
+Print Assumptions C12_fund_obtained_irrelevant.
+
+Theorem C12_fund_decoded_built : forall t q hist,
+  says_result (g_fund (decoded t) q hist) = fund t q hist /\ says_result (g_fund (built t) q hist) = fund t q hist.
+Proof. exact FundObtainedProofs.fund_decoded_built. Qed.
+Print Assumptions C12_fund_decoded_built.
+
+(** the distinction is real (non-vacuity): one draft with an unsigned prior input, hand-built and decoded.  Both say the
+    same and are funded alike (same deficit handed to the supplier); an estimate that decided "unsigned" on the
+    receiver's inputs by `== nil` alone would be 107 bytes short for the decoded one. *)
+Definition ex_draft : tx :=
+  mkTx 1 [mkInput (repeat_byte 32 xab) 1 [] 4294967295 300 (Some ex_p2pkh)] [mkOutput 2000 ex_p2pkh] 0.
+Definition ex_est_size (o : outcome gtx) : outcome N := olet a := o in FOk (tx_size (says a)).
+Example C12_obtained_example :
+  says (built ex_draft) = says (decoded ex_draft) /\ built ex_draft <> decoded ex_draft /\
+  gf_calls (g_fund (built ex_draft) ex_quote [NoUTXO]) = [1892] /\
+  gf_calls (g_fund (decoded ex_draft) ex_quote [NoUTXO]) = [1892] /\
+  ex_est_size (g_estimated_final_tx (built ex_draft)) = FOk 192 /\
+  ex_est_size (g_estimated_final_tx (decoded ex_draft)) = FOk 192 /\
+  ex_est_size (g_estimated_final_tx_receiver_nil (built ex_draft)) = FOk 192 /\
+  ex_est_size (g_estimated_final_tx_receiver_nil (decoded ex_draft)) = FOk 85.
+Proof.
+  split; [vm_compute; reflexivity|]. split; [intro H; discriminate H|].
+  split; [vm_compute; reflexivity|]. split; [vm_compute; reflexivity|].
+  split; [vm_compute; reflexivity|]. split; [vm_compute; reflexivity|].
+  split; vm_compute; reflexivity.
+Qed.
+
 (** State inventory (tie, translator part): every Go struct the model of this property represents has, in the
     source as it is NOW (gen/Structs.v, regenerated on every run), exactly the fields - names, types, order - the
     model was written against (model/StateInventory.v).  New state in these objects (a memoised digest, a cached
